@@ -452,17 +452,32 @@ def writable_provenance(ctx, rule='C06.writable-provenance'):
     res = []
     F = ctx.facts
     n = 0
-    for fn in F.fns:
+    seen_sites = set()
+    keep = ctx.keep_set()
+    for fn in ctx.units():
+        raw = getattr(fn, 'raw', fn)
+        # a private constructor helper (`bucket_handle(inner, writable)`) is judged where it is folded into its callers, with the argument each of them passes
+        if raw not in keep and raw.kind != 'Closure' and F.callers(raw) and all(c in keep or c.kind == 'Closure' for c in F.callers(raw)) and not getattr(fn, 'inlined', None):
+            helper_only = True
+        else:
+            helper_only = False
         du = None
         for carrier in ('Bucket', 'Cursor', 'Buckets'):
             for bb, si, s in aggregates_of(fn, carrier):
                 rv = s['rv']
                 if 'writable' not in rv['fields']:
                     continue
+                if helper_only and op_place(rv['ops'][rv['fields'].index('writable')]) is not None and \
+                        1 <= (ctx.du(fn).root_of(op_place(rv['ops'][rv['fields'].index('writable')])['l'], through_calls=False)) <= fn.argc:
+                    continue
                 n += 1
                 du = du or ctx.du(fn)
                 o = rv['ops'][rv['fields'].index('writable')]
                 v = op_const_val(o)
+                if v is None:
+                    e = du.sym(o)          # a literal handed through a folded-in helper's parameter
+                    if e[0] == 'const' and e[1] in (0, 1):
+                        v = e[1]
                 okk = False
                 how = ''
                 if v is not None:
